@@ -73,7 +73,7 @@ theorem framing_headers (r : Resp) (c : ReqCtx) (date : Bytes) (bodyLen : Nat)
        | some .chunked => Spec.Framed.chunked
        | some .identity => Spec.Framed.identity (toDec (r.dataLength.getD bodyLen))) := by
   rw [framedOf_append_clean _ (insertAuto_clean date c.upgrade hclean)]
-  rcases framing_cases hf with h | h | ⟨h, hl⟩
+  rcases choose_framing_cases hf with h | h | ⟨h, hl⟩
   · subst h; exact framedOf_none len
   · subst h; exact framedOf_chunked len
   · subst h; subst hl; exact framedOf_identity _
